@@ -160,6 +160,23 @@ def periodic_sync(ctx, prog, eff, rid):
                                                          'sync at %s is not on every such path' % rw.loc_of(syncs[0]))) if bad else
                      '%d switch site(s) behind the success edge of the sync at %s' % (len(sw), ', '.join(rw.loc_of(b_) for b_ in syncs)))
     # (b) tickers
+    memo = {}
+
+    def attempt_blocks(b_, depth=0):
+        out = set(c.bb for c in b_.calls if c.callee and c.is_('HnswBackend::sync_wal'))
+        if depth < 3:
+            for bb, cbs in sync_calls(prog).get(b_.id, {}).items():
+                if bb not in out and b_.blocks[bb]['t']['k'] == 'call' and cbs and all(always_attempts(cb, depth + 1) for cb in cbs):
+                    out.add(bb)
+        return out
+
+    def always_attempts(cb, depth):
+        if cb.id not in memo:
+            memo[cb.id] = False
+            blks = attempt_blocks(cb, depth)
+            rets = cb.return_blocks()
+            memo[cb.id] = bool(blks) and bool(rets) and not (set(rets) & cb.reach([0], avoid_blocks=blks))
+        return memo[cb.id]
     for owner in ('kyrodb_server::main', 'TieredEngine::spawn_flush_task'):
         ob = ctx.body(rid, owner)
         if ob is None:
@@ -171,7 +188,7 @@ def periodic_sync(ctx, prog, eff, rid):
             if not ticks:
                 continue
             tickers.append(b)
-            sy = set(c.bb for c in b.calls if c.callee and c.is_('HnswBackend::sync_wal'))
+            sy = attempt_blocks(b)                     # the call itself, or a local callee that makes it on every path to a return (its outcome is the callee's business)
             if not sy:
                 continue
             tv = flow.ThreadedView(b)
